@@ -7,7 +7,7 @@ from vf.evidence import Outcome
 from vf.world import World, Violation, settle, advance
 from vf.simnet import SimNet, Server
 from vf.peers.thrift_serial import ThriftSerialPeer
-from vf.fixtures.richsvc import Rich, RichChild
+from vf.fixtures.richsvc import Rich, RichChild, RichChild2
 
 from thrift.Thrift import TApplicationException
 from scales.constants import SinkProperties
@@ -82,6 +82,18 @@ def _call(child=False):
   return rich.flatmap(lambda c: st.booleans().map(lambda kw: dict(c, kw=kw)))
 
 
+def _call2():
+  # the second inherited service: same method names as the first one, different structs
+  c = st.one_of(
+      st.fixed_dictionaries({'m': st.just('ping'), 'args': st.just([]), 'outcome': st.sampled_from(['void', 'void', 'appexc'])}),
+      st.fixed_dictionaries({'m': st.just('echo'), 'args': st.tuples(I64).map(list), 'outcome': st.sampled_from(['value', 'value', 'appexc']), 'ret': I64}),
+      st.fixed_dictionaries({'m': st.just('extra'), 'args': st.tuples(I32).map(list), 'outcome': st.just('value'), 'ret': I32}))
+  return c.flatmap(lambda c_: st.booleans().map(lambda kw: dict(c_, kw=kw)))
+
+
+ARG_NAMES2 = {'ping': [], 'echo': ['n'], 'extra': ['k']}
+
+
 def strategy(tier):
   hello_call = st.fixed_dictionaries({'m': st.just('hi'), 'args': st.tuples(TEXT).map(list),
                                       'outcome': st.sampled_from(['value', 'value', 'appexc']), 'ret': TEXT, 'kw': st.booleans()})
@@ -96,6 +108,7 @@ def strategy(tier):
       st.fixed_dictionaries(dict(env, svc=st.just('rich'), calls=st.lists(_call(), min_size=1, max_size=5))),
       st.fixed_dictionaries(dict(env, svc=st.just('rich'), calls=st.lists(_call(), min_size=1, max_size=5))),
       st.fixed_dictionaries(dict(env, svc=st.just('richchild'), calls=st.lists(_call(True), min_size=1, max_size=5))),
+      st.fixed_dictionaries(dict(env, svc=st.just('richchild2'), calls=st.lists(_call2(), min_size=1, max_size=4))),
       st.fixed_dictionaries(dict(env, svc=st.just('hello'), calls=st.lists(hello_call, min_size=1, max_size=4))),
   )
 
@@ -170,6 +183,8 @@ def _run_once(plan, chunks):
     iface, pf = Rich.Iface, Rich.Processor
   elif plan['svc'] == 'richchild':
     iface, pf = RichChild.Iface, RichChild.Processor
+  elif plan['svc'] == 'richchild2':
+    iface, pf = RichChild2.Iface, RichChild2.Processor
   else:
     iface, pf = Hello.Iface, Hello.Processor
   peer = ThriftSerialPeer(pf, respond)
@@ -193,7 +208,8 @@ def _run_once(plan, chunks):
     m = c['m']
     args = [_real(m, a) for a in c['args']]
     if c['kw']:
-      return disp.DispatchMethodCall(m, (), dict(zip(ARG_NAMES[m], args)))
+      names = ARG_NAMES2 if plan['svc'] == 'richchild2' else ARG_NAMES
+      return disp.DispatchMethodCall(m, (), dict(zip(names[m], args)))
     return disp.DispatchMethodCall(m, tuple(args), {})
 
   ars = None
